@@ -5,7 +5,7 @@ import json
 import re
 
 BLANK = {
-    "e": "", "who": "", "cid": 0, "api": "", "id": 0, "body": ["empty", ""], "big": False, "et": "",
+    "e": "", "who": "", "cid": 0, "api": "", "id": 0, "body": ["empty", ""], "big": False, "large": False, "et": "",
     "name": "", "events": [], "idc": "ok", "agen": 0, "which": "", "feat": False,
     "status": 0, "kind": "", "inv": 0, "pl": 0, "reason": "", "net": "",
     "base": "", "gen": 0, "pk": "", "err": "", "cause": "",
@@ -284,7 +284,7 @@ def project(raw_events, scenario, bound=None):
             inv_label[ev["k"]] = ev.get("payload", "")
             o.update(e="InvokeCall", caller=ev["caller"], k=ev["k"],
                      pl=0 if ev.get("payload") == "empty" else ev["k"],
-                     big=ev.get("size", 0) > MAX_PAYLOAD)
+                     big=ev.get("size", 0) > MAX_PAYLOAD, large=ev.get("size", 0) > 64 * 1024)
         elif kind == "InvokeRet":
             o.update(e="InvokeRet", caller=ev["caller"], k=ev["k"], out=ev.get("err", ""), body=caller_body(ev.get("body")),
                      status=ev.get("status", 0), dur=ev.get("durMs", 0))
